@@ -174,7 +174,12 @@ class CSSMediaRule(cssrule.CSSRuleRules):
                     rule = cssutils.css.CSSStyleRule(
                         parentRule=self, parentStyleSheet=self.parentStyleSheet
                     )
-                    rule.cssText = self._tokensupto2(tokenizer, token)
+                    # namespaces given with the text are for the contained rules
+                    # (a rule attached to a sheet uses the sheet's anyway)
+                    rule.cssText = (
+                        self._tokensupto2(tokenizer, token),
+                        dict(namespaces.namespaces),
+                    )
                     if rule.wellformed:
                         self.insertRule(rule)
                     return expected
@@ -206,7 +211,10 @@ class CSSMediaRule(cssrule.CSSRuleRules):
                         rule = factories[atval](
                             parentRule=self, parentStyleSheet=self.parentStyleSheet
                         )
-                        rule.cssText = tokens
+                        if atval == self._prods.MEDIA_SYM:
+                            rule.cssText = (tokens, dict(namespaces.namespaces))
+                        else:
+                            rule.cssText = tokens
                         if rule.wellformed:
                             self.insertRule(rule)
                     else:
